@@ -301,7 +301,12 @@ class NameResolutionMixin(MetadataDependent):
 
     def find_accesses(self, node) -> Collection[Access]:
         if scope := self.get_metadata(ScopeProvider, node, None):
-            return scope.accesses[node]
+            accesses = set(scope.accesses[node])
+            # accesses made from nested scopes (closures, lambdas, comprehensions)
+            # are recorded on the assignments, not on this scope
+            for assignment in scope.assignments[node]:
+                accesses.update(assignment.references)
+            return accesses
         return {}
 
     def class_has_method(self, classdef: cst.ClassDef, method_name: str) -> bool:
